@@ -24,7 +24,7 @@ CORE_ATOMS = [
 
 EXT_ATOMS = [
     ("b''", b""), ("b'ab'", b"ab\x00\xff"), ("bytearray", bytearray(b"xyz")), ("complex", complex(1.5, -2)),
-    ("uuid", uuid.UUID("12345678-1234-5678-1234-567812345678")), ("Decimal", decimal.Decimal("1.10")),
+    ("uuid", uuid.UUID("12345678-1234-5678-1234-567812345678")), ("Decimal", decimal.Decimal("1.10")), ("Decimal12", decimal.Decimal("12")), ("Decimal-7E+2", decimal.Decimal("-7E+2")),
     ("date", datetime.date(2020, 2, 29)), ("datetime", datetime.datetime(2020, 2, 29, 12, 30, 15)),
     ("tuple()", ()), ("frozenset()", frozenset()),
 ]
@@ -116,6 +116,11 @@ def trees(max_nodes, with_ext=True):
     out.append(("[]", [], True))
     out.append(("{}", {}, True))
     out.append(("{'':''}", {"": ""}, True))
+    # string keys that look like other things stay strings
+    out.append(("{'1':'one'}", {"1": "one"}, True))
+    out.append(("{'42':1,'-3':2,'0':3}", {"42": 1, "-3": 2, "0": 3}, True))
+    out.append(("{'True':1,'null':2}", {"True": 1, "null": 2}, True))
+    out.append(("{'1.5':[{'7':7}]}", {"1.5": [{"7": 7}]}, True))
     if max_nodes >= 4:
         for l, v, core in list(out):
             if l.startswith("[[") or l.startswith("{k:{") or l.startswith("{k:["):
